@@ -52,6 +52,22 @@ THEOREMS = [
     "Ural.Props.C14.api_delimiters",
     "Ural.Props.C14.api_functions",
     "Ural.Props.C14.qsl_contract",
+    # safely_quote(string, safe=...) (FX-C01-PLUS: safely_quote_qsl passes safe="/+")
+    "Ural.Props.C14.quote_default_safe",
+    "Ural.Props.C14.quote_safe_sets",
+    "Ural.Props.C14.quoteBy_tokens",
+    "Ural.Props.C14.quoteBy_contract",
+    "Ural.Props.C14.unquote_quoteBy_unquote",
+    "Ural.Props.C14.quoteBy_unquote_idempotent",
+    "Ural.Props.C14.upper_commutes_quoteBy",
+    "Ural.Props.C14.query_plus_kept",
+    # positional forms of the delimiter clause
+    "Ural.Props.C14.unquote_delimiter_positional",
+    "Ural.Props.C14.unquote_split_delimiter",
+    "Ural.Props.C14.api_delimiters_positional",
+    # the model in the order of the Python code (decode, then NON_PRINTABLE_RE.sub, then the space) is the model
+    "Ural.Quote.safelyUnquotePost_eq",
+    "Ural.Props.C14.api_code_order",
 ]
 TABLE_OBLIGATIONS = [
     "Ural.Props.C14.tables_percent_unsafe",
@@ -61,6 +77,7 @@ TABLE_OBLIGATIONS = [
     "Ural.Props.C14.tables_flags",
     "Ural.Props.C14.tables_patterns",
     "Ural.Props.C14.tables_ascii",
+    "Ural.Props.C14.tables_qsl_safe",
 ]
 RULE = (
     "A case is a string. Streams, in this order: (1) the regression corpus (minimal input of every "
@@ -126,6 +143,10 @@ CORPUS = [
     "/%2541", "/a%E9b", "%7F%C2%85", "a b", "/%2F", "u%2Fx", "%%34%31", "%zz", "%", "%4",
     "x%E3%80%80", "%C2%A0x%E2%80%83", "t%C3%A9%40%3A%20", "é%3F%26%3D%20 ", "%C3é", "%E2%82%AC", "%e2%82%ac%41", "%F4%90%80%80",
     "a\xa0b", "x\u3000", "\u2028%41", "%E2\xa0%A0", "%C2\xa0", "\xa0%A0", "\x85%85",
+    # FX-C01-PLUS: '+' / '%2B' in a query item (a space / a plus sign): neither is rewritten into the other
+    "a+b%2B", "%2B", "+", "%2b+%20 ", "c%2B%2B+faq",
+    # the order of the passes (decode, then NON_PRINTABLE_RE.sub, then the space): raw non-printables between bytes
+    "%E2\xa0%A0 %C2%A0%41", "%F0\u3000%9F%8D%8A", "%C2\x85%85 ",
     # upper_quoted: every shape of LOWERCASE_QUOTED_RE's three alternatives, and its look-alikes
     "%2f", "%f2", "%ff", "%fF", "%Ff", "%FF", "%22", "%c3%a9", "%aG", "%ga", "%%2f", "%2%2f", "%2f%", "%2ff",
     "f%2f/é%c3", "%é2f", "%2\u00e9f", "a?é%41\n[%2f",
@@ -178,6 +199,8 @@ def cases(rng, tier):
         yield {"bytes": bs}
 
 
+UNQUOTERS = FNS[1:5]
+
 # `safely_quote(s, safe=…)`: the value `safely_quote_qsl` passes (FX-C01-PLUS), the empty one, one with
 # delimiters, a non-ASCII character (ignored by urllib's quote) and the escape sign itself
 SAFES = ["/+", "", "&=+;", "é/", "%+"]
@@ -194,11 +217,10 @@ def ops(case):
     return (
         base
         + [{"f": "quote", "fn": "safely_quote", "s": s, "safe": x} for x in SAFES[1:]]
+        # the unquoters computed in the order of the code (Model/Quote.lean safelyUnquotePost)
+        + [{"f": "quote", "fn": fn, "s": s, "post": True} for fn in UNQUOTERS]
         + [{"f": "chains", "s": s}, {"f": "qsl", "s": s}]
     )
-
-
-UNQUOTERS = FNS[1:5]
 
 
 def _qsl(s):
@@ -258,6 +280,7 @@ def impl(case):
     return (
         base
         + [lib.guarded(_fn("safely_quote"), s, safe=x) for x in SAFES[1:]]
+        + [lib.guarded(_fn(fn), s) for fn in UNQUOTERS]
         + [lib.guarded(_chains, s), lib.guarded(_qsl, s)]
     )
 
